@@ -132,6 +132,17 @@ class Ctx:
         if reason not in self.inconclusive:
             self.inconclusive.append(reason)
 
+    def checkpoint(self):
+        """Write what has been observed so far next to the shard's result file, so that a
+        shard which later gets stuck (and is killed by the parent) still reports it."""
+        path = getattr(self, "out_path", None)
+        if not path:
+            return
+        tmp = path + ".partial.tmp"
+        with open(tmp, "w") as f:
+            json.dump(self.result(), f)
+        os.replace(tmp, path + ".partial")
+
     def result(self):
         return {
             "shard": self.shard, "counters": self.counters, "classes": self.classes,
